@@ -3238,6 +3238,7 @@ static size_t ZSTD_decompressDCtx(void* ctx, void* dst, size_t maxDstSize, const
         {
         case bt_compressed:
             decodedSize = ZSTD_decompressBlock(ctx, op, oend-op, ip, cBlockSize);
+            if (!ZSTD_isError(decodedSize) && decodedSize > BLOCKSIZE) return ERROR(corruption_detected);   /* ZSTD_decompressBound() counts on it */
             break;
         case bt_raw :
             decodedSize = ZSTD_copyUncompressedBlock(op, oend-op, ip, cBlockSize);
@@ -3282,7 +3283,7 @@ void ZSTDv02_findFrameSizeInfoLegacy(const void *src, size_t srcSize, size_t* cS
 {
     const BYTE* ip = (const BYTE*)src;
     size_t remainingSize = srcSize;
-    size_t nbBlocks = 0;
+    unsigned long long bound = 0;
     U32 magicNumber;
     blockProperties_t blockProperties;
 
@@ -3318,11 +3319,12 @@ void ZSTDv02_findFrameSizeInfoLegacy(const void *src, size_t srcSize, size_t* cS
 
         ip += cBlockSize;
         remainingSize -= cBlockSize;
-        nbBlocks++;
+        /* an uncompressed block is copied whatever its size (up to the 19 bits of the size field) */
+        bound += ((blockProperties.blockType == bt_raw) && (cBlockSize > BLOCKSIZE)) ? cBlockSize : BLOCKSIZE;
     }
 
     *cSize = ip - (const BYTE*)src;
-    *dBound = nbBlocks * BLOCKSIZE;
+    *dBound = bound;
 }
 
 /*******************************
